@@ -5,14 +5,18 @@ Driver commands for C07 / C12 (model name `c07`).
 `run <batch> <meta> <rounds> <res> <ok> <queue> <ms> <multi>` — one SendBatch case:
 * `<batch>`  call ids by position, `.`-joined (`-` = empty batch)
 * `<meta>`   per call id `table:b|n:region:a|d` (`d` = own context done when the multis were built)
-* `<rounds>` `/`-joined `loc;ans;ord;cancel` (what the harness scripted / observed per retry round):
+* `<rounds>` `/`-joined `loc;ans;ord;cancel[;gone]` (what the harness scripted / observed per retry round):
   `loc` per id: client number | `C` (batch context error) | `L` (client closed) | `E<tag>` |
   `O` (the call's own context was done when its region could not be located and the batch context
   was alive: only that call is failed, with its own-context error);
   `ans` per id: `k<m>` ok | `r<t>` retryable | `n<t>` not serving | `s<t>` server | `f<t>` fatal |
   `o` no answer, own context done | `_` no answer; `ord` = clients in the observed QueueBatch order;
   `cancel`: `-` | `w<id>` at the wait on call id | `e<id>` right after the wait on call id |
-  `a` at the check after the wait | `s` inside the back-off sleep
+  `a` at the check after the wait | `s` inside the back-off sleep;
+  `gone` (optional, default none) = the call ids, `.`-joined, that have a context of their own which
+  is done by the time the back-off sleep after this round is under way (cancelled before SendBatch,
+  at a wait of this or an earlier round, or inside this or an earlier back-off sleep): when all the
+  calls about to be retried are among them the sleep ends at once and SendBatch returns
 * `<res>`    the implementation's slots `msg|err`, `.`-joined; `<ok>` `1|0|hang|panic`
 * `<queue>`  observed QueueBatch calls `round:client:ids`, `/`-joined; `<ms>` duration;
 * `<multi>`  per QueueBatch the RegionActions of a real `multi` fed with it: `reg=ids,reg=ids`.
@@ -87,21 +91,26 @@ structure PRound where
   ans : List Ans
   ord : List Nat
   cancel : CTok
+  gone : List Nat
 
 def parseRound (s : String) : Option PRound :=
-  match s.splitOn ";" with
-  | [l, a, o, c] => do
+  let mk (l a o c g : String) : Option PRound := do
     let l ← parseLocs (splitDot l)
     let a ← (splitDot a).mapM parseAns
     let o ← nats o
     let c ← parseCancel c
-    pure ⟨l, a, o, c⟩
+    let g ← nats g
+    pure ⟨l, a, o, c, g⟩
+  match s.splitOn ";" with
+  | [l, a, o, c] => mk l a o c "-"
+  | [l, a, o, c, g] => mk l a o c g
   | _ => none
 
 def mkRound (p : PRound) (c : Cancel) : Round :=
   { locate := fun i => p.loc.getD i (.error (.other 999)),
     ans := fun i => p.ans.getD i .silent,
-    order := p.ord, cancel := c }
+    order := p.ord, cancel := c,
+    gaveUp := fun i => p.gone.contains i }
 
 def errStr : Err → String
   | .dup j => s!"D{j}"
@@ -313,6 +322,8 @@ def handle : List String → String
             (if mr.interrupted then ["cancel-wait"] else []) ++
             (if prs.any (fun p => match p.cancel with | .fixed .after => true | _ => false) then ["cancel-after"] else []) ++
             (if mr.events.any (fun e => match e with | .sleepCut _ => true | _ => false) then ["cancel-sleep"] else []) ++
+            (if mr.events.any (fun e => match e with | .sleepLeft _ => true | _ => false) then ["sleep-left"] else []) ++
+            (if prs.any (fun p => !p.gone.isEmpty) then ["own-gone"] else []) ++
             (if mr.events.any (fun e => match e with | .sleep _ => true | _ => false) then ["backoff"] else []) ++
             (if mr.res.any (fun s => match s.err with | some (.ownCtx _) => true | _ => false) then ["own-ctx"] else []) ++
             (if prs.any (fun p => p.loc.any (fun l => match l with | .error _ => true | _ => false)) then ["locate-error"] else []) ++
